@@ -1462,8 +1462,11 @@ pub fn stress_strategy(kind: Kind, async_pct: u32) -> BoxedStrategy<StressCase> 
                 let cfg = SCfg { num_counters: nc, max_cost: mc, buffer_size: bs, buffer_items: bi, metrics, ignore_internal_cost: ign, cleanup_ms };
                 let internal = if ign { 0 } else { isz };
                 let unit = if mc > 0 && mc < i64::MAX / 4 { (mc - internal).max(1) } else { 1 };
+                // under a negative max_cost only items of negative cost can be admitted: the
+                // workload then offers some
+                let neg = if mc < 0 { mc - internal - 1 } else { 1 };
                 let op = prop_oneof![
-                    10 => (0u32..40, prop_oneof![Just(1i64), Just(0i64), Just(unit), Just((unit / 3).max(1))], prop_oneof![3 => Just(0u32), 2 => 1u32..1500]).prop_map(|(k, cost, ttl_ms)| SOp::Insert { k, cost, ttl_ms }),
+                    10 => (0u32..40, prop_oneof![Just(1i64), Just(0i64), Just(unit), Just((unit / 3).max(1)), Just(neg), Just(neg)], prop_oneof![3 => Just(0u32), 2 => 1u32..1500]).prop_map(|(k, cost, ttl_ms)| SOp::Insert { k, cost, ttl_ms }),
                     10 => (0u32..40).prop_map(|k| SOp::Get { k }),
                     2 => (0u32..40).prop_map(|k| SOp::GetMut { k }),
                     3 => (0u32..40).prop_map(|k| SOp::Remove { k }),
